@@ -83,6 +83,15 @@ Definition finish (size offset bits : N) (acc : list item) : dres :=
   if size <? offset then DAssertSize
   else DOk (if offset <? size then acc ++ [IZero (size - offset)] else acc).
 
+(* before an entry that starts at byte `start`: flush the unfinished byte of the previous bit-field, zero-fill the gap;
+   returns the pending bits and the items so far (the C then continues with offset = start) *)
+Definition flush_gap (offset bits start : N) (acc : list item) : N * list item :=
+  let '(offset1, bits1, acc1) :=
+    if (offset <? start) && negb (bits =? 0)
+    then (w64 (offset + 1), 0, acc ++ [IInt 1 [bits mod 4294967296]])   (* printf("b %u, ", (unsigned)bits); ++offset; bits = 0; *)
+    else (offset, bits, acc) in
+  (bits1, if offset1 <? start then acc1 ++ [IZero (sub64 start offset1)] else acc1).
+
 Fixpoint emit_loop (fuel : nat) (size : N) (l : list init) (offset bits : N) (acc : list item) : dres :=
   match fuel with
   | O => DFuel
@@ -98,11 +107,7 @@ Fixpoint emit_loop (fuel : nat) (size : N) (l : list init) (offset bits : N) (ac
         let aft := bf_after (i_bits cur) in
         let start := w64 (i_start cur + before / 8) in
         let end_ := sub64 (i_end cur) ((aft + 7) / 8) in
-        let '(offset1, bits1, acc1) :=
-          if (offset <? start) && negb (bits =? 0)
-          then (w64 (offset + 1), 0, acc ++ [IInt 1 [bits mod 4294967296]])   (* unfinished byte of the previous bit-field *)
-          else (offset, bits, acc) in
-        let acc2 := if offset1 <? start then acc1 ++ [IZero (sub64 start offset1)] else acc1 in
+        let '(bits1, acc2) := flush_gap offset bits start acc in
         if negb (before =? 0) || negb (aft =? 0) then
           match i_expr cur with
           | EConst false _ u =>
